@@ -10,6 +10,7 @@ import random
 import xml.etree.ElementTree as ET
 
 REF_ATTRS = ('url', 'target', 'source')
+NAME_REF_ATTRS = ('texture',)          # references by bare name (sid), without '#'
 NUMERIC_TAGS = ('float_array', 'p', 'vcount', 'translate', 'rotate', 'scale', 'matrix', 'lookat', 'color', 'float', 'xfov', 'yfov', 'xmag',
                 'ymag', 'aspect_ratio', 'znear', 'zfar', 'constant_attenuation', 'linear_attenuation', 'quadratic_attenuation',
                 'falloff_angle', 'falloff_exponent', 'v', 'bind_shape_matrix')
@@ -30,6 +31,8 @@ def sites(root):
             if a in REF_ATTRS and v.startswith('#'):
                 out.append(('dangling', i, a))
                 out.append(('nohash', i, a))
+            if a in NAME_REF_ATTRS:
+                out.append(('dangling', i, a))
             out.append(('dropattr', i, a))
         if name in NUMERIC_TAGS and el.text and el.text.split():
             ntok = len(el.text.split())
@@ -56,7 +59,7 @@ def apply(data, site):
     els = list(root.iter())
     el = els[i]
     if kind == 'dangling':
-        el.set(detail, '#no_such_id_anywhere')
+        el.set(detail, 'no_such_name_anywhere' if detail in NAME_REF_ATTRS else '#no_such_id_anywhere')
     elif kind == 'nohash':
         el.set(detail, el.get(detail)[1:])
     elif kind == 'dropattr':
